@@ -41,12 +41,12 @@ def is_complement(site, partner):
 def _species(rng):
     species = []
     n_dollar = rng.choice([0, 1, 1, 2, 3])
-    labels = ["", "A", "B", "C", "D"]
+    labels = ["", "A", "B", "C", "D", "B2", "A1"]
     rng.shuffle(labels)
     for k in range(n_dollar):
         species.append(("$", labels[k], rng.choice([1, 1, 1, 1, 2])))
     n_dir = rng.choice([0, 1, 1, 2]) if species else rng.choice([1, 1, 2])
-    dlabels = ["", "A", "B", "X"]
+    dlabels = ["", "A", "B", "X", "A2", "A1", "X12"]
     rng.shuffle(dlabels)
     for k in range(n_dir):
         order = rng.choice([1, 1, 1, 2])
@@ -132,11 +132,20 @@ def gen_config(rng, all_atom=None, tier="quick"):
         }
         if all_atom:
             template["mass"] = sum(MASS[mol.atoms[a]["el"]] for a in appearance) + MASS["H"] * sum(template["hfill"])
+            if rng.random() < 0.12:
+                # a counter ion / free ion written as a disconnected part of the fragment
+                ion, ion_mass = rng.choice([(".[NH4+]", MASS["N"] + 4 * MASS["H"]), (".[OH-]", MASS["O"] + MASS["H"]),
+                                            (".[Na+]", MASS["Na"]), (".[Cl-]", MASS["Cl"]), (".[OH3+]", MASS["O"] + 3 * MASS["H"])])
+                template["text"] = text + ion
+                template["mass"] += ion_mass
         frags.append(template)
     all_descs = sorted({d for f in frags for ds in f["descs"].values() for d in ds})
 
     def user_key(desc):
-        return desc[:-1] if desc[-1] == "1" and rng.random() < 0.6 else desc
+        # the order suffix may be omitted for order 1 - unless the label itself ends in a digit
+        if desc[-1] == "1" and not desc[-2:-1].isdigit() and rng.random() < 0.6:
+            return desc[:-1]
+        return desc
 
     # --- reactivity tables -----------------------------------------------------
     poly = {}
